@@ -297,6 +297,15 @@ theorem foldl_setBattery_bats (l : List (StatBatS α B)) (hl : MinOK l) (w : SWo
     obtain ⟨i, m⟩ := ih (fun b hb => hl b (by simp [hb])) (w.setBattery x) hx
     exact ⟨i.trans (map_replace_ids _ _), m⟩
 
+/-! ### the repair DIST2 touches station powers only -/
+
+@[simp] theorem syncStations_gcs (vw : SWorld α B) : (syncStations vw).gcs = vw.gcs := by
+  unfold syncStations; split <;> rfl
+@[simp] theorem syncStations_batteries (vw : SWorld α B) : (syncStations vw).batteries = vw.batteries := by
+  unfold syncStations; split <;> rfl
+@[simp] theorem syncStations_vehicles (vw : SWorld α B) : (syncStations vw).vehicles = vw.vehicles := by
+  unfold syncStations; split <;> rfl
+
 /-! ### depot connector -/
 
 /-- every connector respects its (non-negative) limit -/
@@ -389,20 +398,22 @@ theorem stepDeps_inv (dops : DOps α B) (law : BatLaw dops.bat) (hex : UnloadExa
         subst hg; exact h0 g hgc) hr
     have hg1ok : g1.currentLoad ≤ g1.curMax := hup g1 (by rw [hg1]; simp)
     obtain ⟨ib, mb⟩ := ruleStep_bats _ _ _ _ vw' cmds (show MinOK (depotBatteries w batIds) from hmin') hr
-    have hgcs : ∀ g ∈ (mergeDeps w vw' stations cvs).gcs, g = g1 ∨ (g ∈ w.gcs ∧ g.id ≠ g1.id) := by
+    have hg1s : (syncStations vw').gcs = [g1] := by rw [syncStations_gcs]; exact hg1
+    have mbs : MinOK (syncStations vw').batteries := by rw [syncStations_batteries]; exact mb
+    have hgcs : ∀ g ∈ (mergeDeps w (syncStations vw') stations cvs).gcs, g = g1 ∨ (g ∈ w.gcs ∧ g.id ≠ g1.id) := by
       intro g hg
       unfold mergeDeps at hg
-      simp only [foldl_setBattery_gcs, hg1] at hg
+      simp only [foldl_setBattery_gcs, hg1s] at hg
       rcases setGc_single_mem _ g1 g hg with h | ⟨h, h'⟩
       · exact Or.inl h
       · rw [writeBack_gcs] at h; exact Or.inr ⟨h, h'⟩
-    have hbats := foldl_setBattery_bats vw'.batteries mb
-      (vw'.gcs.foldl (fun (w : SWorld α B) g => w.setGc g) (writeBack w vw' (stations.map (·.id)) (cvs.map (·.id))))
+    have hbats := foldl_setBattery_bats (syncStations vw').batteries mbs
+      ((syncStations vw').gcs.foldl (fun (w : SWorld α B) g => w.setGc g) (writeBack w (syncStations vw') (stations.map (·.id)) (cvs.map (·.id))))
       (by
-        have : (vw'.gcs.foldl (fun (w : SWorld α B) g => w.setGc g)
-            (writeBack w vw' (stations.map (·.id)) (cvs.map (·.id)))).batteries = w.batteries := by
-          rw [hg1]; simp only [List.foldl_cons, List.foldl_nil]
-          show (writeBack w vw' _ _).batteries = _
+        have : ((syncStations vw').gcs.foldl (fun (w : SWorld α B) g => w.setGc g)
+            (writeBack w (syncStations vw') (stations.map (·.id)) (cvs.map (·.id)))).batteries = w.batteries := by
+          rw [hg1s]; simp only [List.foldl_cons, List.foldl_nil]
+          show (writeBack w (syncStations vw') _ _).batteries = _
           exact writeBack_batteries _ _ _ _
         rw [this]; exact hmin)
     refine ⟨?_, ?_, ?_, ?_, rfl⟩
@@ -415,9 +426,9 @@ theorem stepDeps_inv (dops : DOps α B) (law : BatLaw dops.bat) (hex : UnloadExa
       · exact ⟨gc, hgc, hid, hcost, hcm⟩
       · exact ⟨g, h, rfl, rfl, rfl⟩
     · unfold mergeDeps
-      rw [hbats.1, hg1]
+      rw [hbats.1, hg1s]
       simp only [List.foldl_cons, List.foldl_nil]
-      show (writeBack w vw' _ _).batteries.map _ = _
+      show (writeBack w (syncStations vw') _ _).batteries.map _ = _
       rw [writeBack_batteries]
     · exact hbats.2
 
@@ -792,15 +803,15 @@ theorem stepOpps_inv (dops : DOps α B) (law : BatLaw dops.bat) (hex : UnloadExa
         simp only [Except.ok.injEq, Prod.mk.injEq] at h
         obtain ⟨rfl, rfl, rfl⟩ := h
         have hQ0 : PostInv w gc gc.curMax prep.avail batIds batIds
-            ⟨g1, cmds, (writeBack w vw' (stations.map (·.id)) (cvs.map (·.id))).batteries⟩ := by
+            ⟨g1, cmds, (writeBack w (syncStations vw') (stations.map (·.id)) (cvs.map (·.id))).batteries⟩ := by
           refine ⟨?_, Or.inr ⟨?_, fun k hk hk' => absurd hk hk'⟩, ?_, ?_, ?_, ?_, ?_⟩
           · show g1.currentLoad ≤ _
             rw [← hP.curMax, ← hcm]; exact hg1ok
           · show g1.curMax = _
             rw [hcm, hP.curMax]
-          · intro k _; show List.find? _ (writeBack w vw' _ _).batteries = _; rw [writeBack_batteries]
-          · show List.map _ (writeBack w vw' _ _).batteries = _; rw [writeBack_batteries]
-          · show MinOK (writeBack w vw' _ _).batteries; rw [writeBack_batteries]; exact hmin
+          · intro k _; show List.find? _ (writeBack w (syncStations vw') _ _).batteries = _; rw [writeBack_batteries]
+          · show List.map _ (writeBack w (syncStations vw') _ _).batteries = _; rw [writeBack_batteries]
+          · show MinOK (writeBack w (syncStations vw') _ _).batteries; rw [writeBack_batteries]; exact hmin
           · exact hid.trans hP.id
           · exact hcost.trans hP.cost
         have hQ := oppsPost_fold dops law hex w gc gc.curMax prep.avail _ batIds batIds hnd hP.known _ post hQ0 hpost
@@ -811,7 +822,7 @@ theorem stepOpps_inv (dops : DOps α B) (law : BatLaw dops.bat) (hex : UnloadExa
           rcases hQ.curMax with hc | ⟨hc1, hc2⟩
           · exact hc
           · rw [hc1, supOf_zero _ _ (fun k hk => hc2 k hk (by simp))]; simp
-        have hgcs : ∀ g ∈ ((writeBack w vw' (stations.map (·.id)) (cvs.map (·.id))).setGc post.gc).gcs,
+        have hgcs : ∀ g ∈ ((writeBack w (syncStations vw') (stations.map (·.id)) (cvs.map (·.id))).setGc post.gc).gcs,
             g = post.gc ∨ (g ∈ w.gcs ∧ g.id ≠ post.gc.id) := by
           intro g hg
           rcases mem_setGc _ post.gc g hg with h | ⟨h, h'⟩
@@ -1055,12 +1066,12 @@ theorem stepGc_frame (dops : DOps α B) (de : DEnv α) (hd : de.deps.ps = none) 
                   simp only [Except.ok.injEq] at h
                   subst h
                   obtain ⟨g1, hg1, hid, _, _⟩ := ruleStep_single _ _ _ gc _ _ _ vw' cmds hr
-                  have hgcs : (mergeDeps st.1 vw' stations cvs).gcs =
-                      ((writeBack st.1 vw' (stations.map (·.id)) (cvs.map (·.id))).setGc g1).gcs := by
+                  have hgcs : (mergeDeps st.1 (syncStations vw') stations cvs).gcs =
+                      ((writeBack st.1 (syncStations vw') (stations.map (·.id)) (cvs.map (·.id))).setGc g1).gcs := by
                     unfold mergeDeps
-                    simp only [foldl_setBattery_gcs, hg1, List.foldl_cons, List.foldl_nil]
-                  show (mergeDeps st.1 vw' stations cvs).gcs.map _ = _ ∧
-                    ∀ g' ∈ (mergeDeps st.1 vw' stations cvs).gcs, _
+                    simp only [foldl_setBattery_gcs, syncStations_gcs, hg1, List.foldl_cons, List.foldl_nil]
+                  show (mergeDeps st.1 (syncStations vw') stations cvs).gcs.map _ = _ ∧
+                    ∀ g' ∈ (mergeDeps st.1 (syncStations vw') stations cvs).gcs, _
                   rw [hgcs]
                   exact fin g1 _ hid (writeBack_gcs _ _ _ _)
               | opps =>
